@@ -211,6 +211,16 @@ def gen_systematic():
                 st = logged_on_prefix(role, N, p)
                 st += [act("advance", ms=T // frac), act("send"), act("advance", ms=T - T // frac + T // 10 + 1), p("hbt"), act("send"), act("advance", ms=T + T // 10 + 1)]
                 out.append(dict(id="sys-%s-%d-savefail-once-%d" % (role[0], N, frac), cfg=cfg(role, hbmin=1, hbmax=60, hbcfg=N, closems=1000, savefailonly=2), steps=st))
+            # (d') the single failing Save hits a message the SESSION sends itself (the Heartbeat that answers a TestRequest): that one
+            # message is lost, the session goes on - heartbeats, probes of a silent peer and all.  (Not: the timer Heartbeat itself
+            # fails to be saved - then the session cannot help being silent for longer than the interval, C19 forbids sending it.)
+            for which, k in (("reply", 2),):
+                p = Peer()
+                st = logged_on_prefix(role, N, p)
+                if which == "reply":
+                    st += [act("advance", ms=T // 3), p("testreq", id=[85])]
+                st += [act("advance", ms=T + T // 10 + 1), p("hbt"), act("advance", ms=T + T // 10 + 1), p("hbt"), act("advance", ms=T + T // 10 + 1)]
+                out.append(dict(id="sys-%s-%d-savefail-own-%s" % (role[0], N, which), cfg=cfg(role, hbmin=1, hbmax=60, hbcfg=N, closems=1000, savefailonly=k), steps=st))
             for call in ("llogout", "stop"):
                 for cross in ("hbt", "testreq", "app", "resend", "unknown"):
                     for closems in (500, 20000):
@@ -267,6 +277,18 @@ def gen_config():
                 p = Peer()
                 st = logged_on_prefix(role, 30, p) + [act("advance", ms=10), act(call), act("advance", ms=closems - 1), act("advance", ms=5), act("advance", ms=500)]
                 out.append(dict(id="cfg-%s-unsaved-%s-%d" % (call, role[0], closems), cfg=cfg(role, closems=closems, savefailonly=2), steps=st))
+    # Logons that carry ResetSeqNumFlag (141=Y): refused ones are still refused, approved ones log on, the numbering goes on from
+    # the Logon's number (an initiating application that set the flag itself included)
+    for role in ("acceptor", "initiator"):
+        for first in ("refused", "approved"):
+            p = Peer()
+            st = [act("run")]
+            if first == "refused" and role == "acceptor":
+                st += [p("logon", hb=30, cred=False, extra=10), p("testreq", id=[83], extra=0)]
+            st += [p("logon", hb=30, extra=10), act("send"), p("testreq", id=[84], extra=0), act("send"), p("resend", b=1, e=0, extra=0), p("logout", extra=0)]
+            c = cfg(role)
+            c["resetFlag"] = True
+            out.append(dict(id="cfg-reset141-%s-%s" % (role[0], first), cfg=c, steps=st))
     # the application's logon callback imposes a heartbeat interval of its own (it rewrites the settings it is handed): the Logon
     # answer announces it and BOTH timers run on it - a peer that is live by that interval is not probed, a silent one is
     for ask, impose in ((1, 3), (4, 1)):
@@ -388,7 +410,7 @@ def gen_lookalike():
     # of a framing / header field (the BeginString field as a whole, '34=', '9='): the Reject still refers to the message's own number
     # a longer tag ending in 35 / 34 with a plausible value AHEAD of the genuine MsgType / MsgSeqNum field, before and after logon
     for role in ("acceptor", "initiator"):
-        for ex in (5, 6, 7, 8, 9):
+        for ex in (5, 6, 7, 8, 9, 10):
             p = Peer()
             st = [act("run"), p("app", extra=ex), p("unknown", extra=ex), p("hbt", extra=ex), p("testreq", id=[73], extra=ex), p("logon", hb=30, extra=ex),
                   p("app", extra=ex), p("testreq", id=[74], extra=ex), p("hbt", extra=ex), p("resend", b=1, e=0, extra=ex), p("logout", extra=ex), p("logon", hb=30, extra=ex)]
@@ -629,13 +651,14 @@ def run_driver(run, binp, scns, name, testname="TestScenarios", extra_env=None):
                     a["numTxt"] = NOT_NUMBERS[(h // 4) % len(NOT_NUMBERS)] if nn and h % 4 in (1, 2) else ""
                     # the same message written differently (an unknown field, header fields in another order): one in four valid ones
                     if "extra" not in a:
-                        a["extra"] = 1 + (h // 8) % 9 if (not nn and a.get("integ", "none") == "none" and a.get("sq", "ok") == "ok" and h % 4 == 3) else 0
+                        a["extra"] = 1 + (h // 8) % 10 if (not nn and a.get("integ", "none") == "none" and a.get("sq", "ok") == "ok" and h % 4 == 3) else 0
             # deployment options that must make no difference: a non-strict unmarshaller, a store that answers with nothing instead
             # of an error (a third of the scenarios each)
             if isinstance(sc.get("cfg"), dict):
                 hc = zlib.crc32(("%s/deploy" % sc.get("id")).encode())
                 sc["cfg"].setdefault("nonStrict", hc % 3 == 0)
                 sc["cfg"].setdefault("laxStore", (hc // 3) % 3 == 0)
+                sc["cfg"].setdefault("resetFlag", (hc // 9) % 2 == 0)
             f.write(json.dumps(sc) + "\n")
     shards = min(NCPU, max(1, len(scns) // 20))
     procs = []
